@@ -57,6 +57,8 @@ ReduceFails(ev) ==
   \cup (IF AllLe(ev.waves_ppb, Tol) THEN {} ELSE {"reduced_waves_differ_from_multislice_of_the_equivalent_probe"})
   \cup (IF AllLe(ev.det_ppb, Tol) THEN {} ELSE {"measurements_differ_from_multislice_of_the_equivalent_probe"})
   \cup (IF AllLe(ev.lazy_ppb, Tol) THEN {} ELSE {"lazy_and_eager_reduction_differ"})
+  \* a CTF carrying a series of values: member k of the reduction is the reduction with the scalar CTF k
+  \cup (IF AllLe(ev.series_ppb, Tol) THEN {} ELSE {"ctf_series_member_differs_from_the_scalar_reduction"})
 
 Fails(ev) == IF ev.k = "beams" THEN BeamsFails(ev) ELSE IF ev.k = "window" THEN WindowFails(ev) ELSE ReduceFails(ev)
 
